@@ -54,3 +54,18 @@ def c08_steps(tier):
 PROPS["C08"] = dict(level="exploration", steps=c08_steps, default_variant="bubble", assumptions=TRUST + [
     "testing/synctest (Go 1.26.8) detects 'all goroutines durably blocked' for channel operations; schedules are sampled (hook-site delays order the goroutines, the Go scheduler chooses in between)",
     "the Go race detector reports a race only when both accesses occur in the explored execution"])
+PROPS["C16"] = dict(level="exploration", steps=simple("^TestC16"), assumptions=TRUST)
+
+
+def c14_steps(tier):
+    th = tier == "thorough"
+    return [
+        dict(run="^TestC14Blocks", variant="default", shards=(8 if th else 1)),
+        dict(run="^TestC14Frames", variant="bubble", shards=(6 if th else 1)),
+        dict(run="^TestC14Frames", variant="bubble", shards=(2 if th else 1), env={"GOMAXPROCS": "1", "VERIF_C14_SCALE": "40"}),
+    ]
+
+
+PROPS["C14"] = dict(level="exploration", steps=c14_steps, replay_variant={"C14/frame": "bubble", "C14/block": "default"}, assumptions=TRUST)
+PROPS["C15"] = dict(level="fault_enumeration", steps=simple("^TestC15", shards_quick=2), assumptions=TRUST)
+PROPS["C18"] = dict(level="exploration", steps=simple("^TestC18"), assumptions=TRUST)
